@@ -10,9 +10,13 @@
 (* What a call promises depends on how it returns: the delivery clause is for  *)
 (* calls that return WITHOUT error only; a call that returns an error (its     *)
 (* context expired, its own export failed) promises nothing about delivery.    *)
-(* All other clauses are unconditional: no span twice (a failed export is not  *)
-(* retried), bounded batches, exclusive exporter, nothing exported after       *)
-(* Shutdown has returned -- with or without error.                             *)
+(* The other clauses hold whatever the calls return: no span twice (a failed    *)
+(* export is not retried), bounded batches, exclusive exporter.  "Nothing is    *)
+(* exported after Shutdown has returned" is judged for Shutdown calls that      *)
+(* returned nil (and for exports after exporter.Shutdown); an export after a    *)
+(* Shutdown that returned its ctx error is reported as an OBSERVATION (kind     *)
+(* "obs:..."): counted in the evidence, never a violation -- the statement      *)
+(* does not quantify over expiring caller contexts.                             *)
 EXTENDS Naturals, Sequences, FiniteSets, TLC
 
 Fresh(cfg) == [cfg |-> cfg,
@@ -43,11 +47,10 @@ SeqToSet(s) == {s[i] : i \in 1..Len(s)}
    like a span enqueued after the drain (D4) they are lost silently; their End returned after a Shutdown
    call had begun, so they are owed only to calls made later (classified as D1 / D4 there). *)
 Missing(m, S) == (((S \ m.handed) \ m.dropped) \ m.ignored) \ (IF m.cfg.kind = "simple" THEN m.raced ELSE {})
-(* the ctx of some Shutdown call is done and the exporter has not been shut down yet: the drain that call
-   started (or waited for) may still be running in the background although the call has returned (D5) *)
-DrainOutlives(m) == m.sdProcs \cap m.ctxdone # {} /\ ~m.expShut
-(* ... and some OTHER Shutdown call (one of N) has returned nil meanwhile (D7); a Shutdown that returns nil
-   itself although its own ctx expired before the drain was done is not excused *)
+(* the ctx of some Shutdown call is done and the exporter has not been shut down yet (the drain that call started
+   may still be running in the background although the call has returned its ctx error), and some OTHER Shutdown
+   call (one of N) has returned nil meanwhile (the defect repaired by af9523f; kept as its own kind so that a
+   regression is named); a Shutdown that returns nil itself although its own ctx expired is plain shutdown-missed *)
 EarlyNil(m, N) == ~m.expShut /\ \E o \in m.sdProcs \cap m.ctxdone : N \ {o} # {}
 
 (* Step(m, e) = <<next monitor state, set of violated clauses (records)>> *)
@@ -86,8 +89,7 @@ Step(m, e) ==
            \cup (IF Len(e.ids) > m.cfg.maxbatch THEN {[kind |-> "batch-too-large", n |-> Len(e.ids)]} ELSE {})
            \cup (IF m.inflight THEN {[kind |-> "concurrent-export"]} ELSE {})
            \cup (IF m.expShut THEN {[kind |-> "export-after-shutdown"]}
-                 ELSE IF ~(m.sdRet \/ m.sdRetErr) THEN {}
-                 ELSE IF m.sdNil = {} /\ DrainOutlives(m) THEN {[kind |-> "export-after-expired-shutdown"]}
+                 ELSE IF m.sdNil = {} THEN (IF m.sdRetErr THEN {[kind |-> "obs:export-after-shutdown-returned-error"]} ELSE {})
                  ELSE IF EarlyNil(m, m.sdNil) THEN {[kind |-> "export-after-nil-shutdown-while-expired-drain-runs"]}
                  ELSE {[kind |-> "export-after-shutdown"]})
            \cup (IF ids \cap (m.dropped \cup m.ignored \cup m.abandoned) # {} THEN {[kind |-> "exported-a-dropped-span"]} ELSE {})
